@@ -101,7 +101,7 @@ def pattern_info(pattern, flags, module):
     return names, a0, a1, minw, maxw
 
 
-def sym_search(eng, pattern, text, flags=0, module=re, n=None, may_fail=True, tag="m"):
+def sym_search(eng, pattern, text, flags=0, module=re, n=None, may_fail=True, tag="m", newline_free=False):
     subj = _subject(text, n)
     if not subj.atoms:
         # empty subject: the result is whatever the real engine says on ""
@@ -111,6 +111,8 @@ def sym_search(eng, pattern, text, flags=0, module=re, n=None, may_fail=True, ta
         raise NotEncodable(f"regex on non-contiguous subject {subj}")
     lo, hi = sg
     names, a0, a1, minw, maxw = pattern_info(pattern, flags, module)
+    if may_fail and always_matches(pattern, flags):
+        may_fail = False
     if may_fail:
         b = eng.fresh_bool(f"match_{tag}")
         if eng.choose([b, z3.Not(b)]) == 1:
@@ -120,8 +122,8 @@ def sym_search(eng, pattern, text, flags=0, module=re, n=None, may_fail=True, ta
     if a0 and not (flags & re.M):
         eng.add(s == lo)
     if a1 and not (flags & re.M):
-        # `$` also matches before a final newline
-        eng.add(z3.Or(e == hi, e == hi - 1))
+        # `$` also matches before a final newline (unless the caller knows the subject has none)
+        eng.add(e == hi if newline_free else z3.Or(e == hi, e == hi - 1))
     if minw is not None:
         eng.add(e - s >= minw)
     if maxw is not None:
@@ -206,3 +208,199 @@ def sym_sub_wrap(eng, pattern, repl, text, n, max_matches=2, tag="s"):
         cur = e
     out = out + TStr.sub(cur, hi, subj.n)
     return out
+
+
+# ---------------------------------------------------------------- facts read off the pattern's own AST
+_FACTS = {}
+
+
+def pattern_facts(pattern, flags=0):
+    """{group name: {"at_start": bool, "width": (lo, hi|None)}} derived from the parsed pattern.
+
+    at_start: whenever a group of that name participates it starts at the match start (nothing that can
+    consume a character precedes it on any path through the pattern).  Duplicate names (regex module)
+    are renamed for parsing; a fact is reported for a name only if it holds for all its copies."""
+    key = (pattern, int(flags))
+    if key in _FACTS:
+        return _FACTS[key]
+    from vf.symre import rename_duplicate_groups
+
+    p2, back = rename_duplicate_groups(pattern)
+    f = int(flags) & (re.I | re.X | re.S | re.M)
+    parsed = sp.parse(p2, f)
+    names = {gid: back.get(nm, nm) for nm, gid in parsed.state.groupdict.items()}
+    at_start, width = {}, {}
+
+    def maxw(seq):
+        try:
+            return sp.SubPattern(parsed.state, list(seq)).getwidth()[1]
+        except Exception:
+            return 1
+
+    def walk(seq, consumed, in_loop):
+        for op, av in seq:
+            if op == sc.SUBPATTERN:
+                gid, _, _, sub = av
+                if gid is not None and gid in names:
+                    nm = names[gid]
+                    at_start[nm] = at_start.get(nm, True) and (not consumed) and (not in_loop)
+                    lo, hi = sp.SubPattern(parsed.state, list(sub)).getwidth()
+                    hi = None if hi >= sc.MAXREPEAT or hi >= 2**31 else hi
+                    old = width.get(nm)
+                    width[nm] = (lo, hi) if old is None else (min(lo, old[0]), None if (hi is None or old[1] is None) else max(hi, old[1]))
+                walk(list(sub), consumed, in_loop)
+                if maxw([(op, av)]) > 0:
+                    consumed = True
+            elif op == sc.BRANCH:
+                any_c = False
+                for b in av[1]:
+                    walk(list(b), consumed, in_loop)
+                    if maxw(list(b)) > 0:
+                        any_c = True
+                consumed = consumed or any_c
+            elif op in (sc.MAX_REPEAT, sc.MIN_REPEAT):
+                lo, hi, sub = av
+                walk(list(sub), consumed, in_loop or hi > 1)
+                if hi > 0 and maxw(list(sub)) > 0:
+                    consumed = True
+            elif op in (sc.ASSERT, sc.ASSERT_NOT):
+                pass  # zero-width; (named groups inside look-arounds are not used by eyecite)
+            elif op == sc.AT:
+                pass
+            else:
+                consumed = True
+        return consumed
+
+    walk(list(parsed), False, False)
+
+    # ordering: (a, b) in before  <=>  whenever both participate, a ends no later than b starts
+    before, always = set(), set()
+
+    def groups_in(seq):
+        out = set()
+        for op, av in seq:
+            if op == sc.SUBPATTERN:
+                if av[0] in names:
+                    out.add(names[av[0]])
+                out |= groups_in(list(av[3]))
+            elif op == sc.BRANCH:
+                for b in av[1]:
+                    out |= groups_in(list(b))
+            elif op in (sc.MAX_REPEAT, sc.MIN_REPEAT):
+                out |= groups_in(list(av[2]))
+        return out
+
+    def order(seq, in_loop):
+        items = list(seq)
+        gs = [groups_in([it]) for it in items]
+        if not in_loop:
+            for i in range(len(items)):
+                for j in range(i + 1, len(items)):
+                    for a in gs[i]:
+                        for b in gs[j]:
+                            before.add((a, b))
+        for op, av in items:
+            if op == sc.SUBPATTERN:
+                order(list(av[3]), in_loop)
+            elif op == sc.BRANCH:
+                for b in av[1]:
+                    order(list(b), in_loop)
+            elif op in (sc.MAX_REPEAT, sc.MIN_REPEAT):
+                order(list(av[2]), in_loop or av[1] > 1)
+
+    order(list(parsed), False)
+    # a name that occurs on both sides of an ordering (duplicates in different alternatives) is dropped
+    before = {(a, b) for a, b in before if (b, a) not in before and a != b}
+
+    def mandatory(seq):
+        out = set()
+        for op, av in seq:
+            if op == sc.SUBPATTERN:
+                if av[0] in names:
+                    out.add(names[av[0]])
+                out |= mandatory(list(av[3]))
+            elif op == sc.BRANCH:
+                alts = [mandatory(list(b)) for b in av[1]]
+                out |= set.intersection(*alts) if alts else set()
+            elif op in (sc.MAX_REPEAT, sc.MIN_REPEAT) and av[0] >= 1:
+                out |= mandatory(list(av[2]))
+        return out
+
+    always = mandatory(list(parsed))
+    out = {nm: {"at_start": at_start.get(nm, False), "width": width.get(nm, (0, None)), "always": nm in always, "before": sorted(b for a, b in before if a == nm)} for nm in set(names.values())}
+    _FACTS[key] = out
+    return out
+
+
+_NULLABLE = {}
+
+
+def always_matches(pattern, flags=0):
+    """True if the pattern matches the empty string at the start of any subject through a path that has
+    no assertion (so a search can never fail)."""
+    key = (pattern, int(flags))
+    if key in _NULLABLE:
+        return _NULLABLE[key]
+    from vf.symre import rename_duplicate_groups
+
+    try:
+        parsed = sp.parse(rename_duplicate_groups(pattern)[0], int(flags) & (re.I | re.X | re.S | re.M))
+    except Exception:
+        _NULLABLE[key] = False
+        return False
+
+    def nullable(seq, first=True):
+        for i, (op, av) in enumerate(seq):
+            if op == sc.AT and av == sc.AT_BEGINNING and first and i == 0:
+                continue
+            if op == sc.SUBPATTERN:
+                if not nullable(list(av[3]), first and i == 0):
+                    return False
+            elif op == sc.BRANCH:
+                if not any(nullable(list(b), False) for b in av[1]):
+                    return False
+            elif op in (sc.MAX_REPEAT, sc.MIN_REPEAT):
+                if av[0] > 0 and not nullable(list(av[2]), False):
+                    return False
+            else:
+                return False
+        return True
+
+    r = nullable(list(parsed))
+    _NULLABLE[key] = r
+    return r
+
+
+def apply_facts(eng, m, pattern, flags=0):
+    """sharpen a SymMatch with the AST-derived facts (lazily: when a group is first inspected)."""
+    facts = pattern_facts(pattern, flags)
+    orig = m._grp
+
+    def grp(k):
+        fresh = k in m.g and m.g[k] == "lazy"
+        if fresh and k in facts and facts[k]["always"]:
+            # the group is on every path through the pattern: it participates
+            gs, ge = eng.fresh_int(f"gs_{k}"), eng.fresh_int(f"ge_{k}")
+            eng.add(m.s <= gs, gs <= ge, ge <= m.e)
+            m.g[k] = (gs, ge)
+        v = orig(k)
+        if fresh and v is not None and k in facts:
+            gs, ge = v
+            if facts[k]["at_start"]:
+                eng.add(gs == m.s)
+            lo, hi = facts[k]["width"]
+            eng.add(ge - gs >= lo)
+            if hi is not None:
+                eng.add(ge - gs <= hi)
+            # ordering against groups already decided
+            for other, ov in m.g.items():
+                if other == k or ov in ("lazy", None) or other not in facts:
+                    continue
+                if other in facts[k]["before"]:
+                    eng.add(ge <= ov[0])
+                if k in facts[other]["before"]:
+                    eng.add(ov[1] <= gs)
+        return v
+
+    m._grp = grp
+    return m
